@@ -343,3 +343,44 @@ Example C03_session_rs_example :
                 /\ P_C03_writer exr_content true (calls_of (7, n) (c_log c)) = true).
 Proof. split; [exact c3r_evs_ok|]. split; [vm_compute; reflexivity|exact c3r_by_theorem]. Qed.
 (* ===== end block: C03Session ===== *)
+
+From FluteV Require Import Proofs.C02Cenc.
+(* ===== block: C02Cenc ===== *)
+(* C03 for CONTENT-ENCODED objects (Content-Encoding gzip / deflate / zlib), No-Code, object level; Proofs/C02Cenc.v.
+   The setting of C03_nocode_complete_implies_exact with the packets carrying the transfer-encoded bytes [transfer], the
+   FDT entry carrying Content-Encoding ce <> null (cenc_entry_for: any MD5, any Content-Length attribute), under the
+   EXPLICIT, TRUSTED hypothesis inflate_oracle_blocks on the inflate oracle (unfolded in C02_cenc_statements): ANY list of
+   genuine packets of [transfer] - any order, multiplicity, subset, with or without the close-object flag - whatever
+   write() answers, whatever the MD5 check says, whatever max_size_allocated and the number of blocks are.  Then for
+   every writer the bytes written so far are a prefix of the CONTENT, completed implies written = content, never both
+   completed and failed.  The hypothesis is needed: C03_cenc_wrong_inflater_corrupts.
+   Not covered: the receiver level for arbitrary event lists (section Walk of Proofs/C03Session.v fixes cenc = null and
+   one byte string for what the packets carry and what is written), the oracle FEC schemes with a content encoding. *)
+Theorem C03_cenc_complete_implies_exact : forall E oti transfer content ce toi max fid files inst md5 clen pkts,
+  let L := lenN_ transfer in
+  nocode_ok oti L -> ce <> CNull -> cenc_entry_for files inst toi oti L ce md5 clen ->
+  inflate_oracle_blocks E ce oti transfer content -> writer_accepts E toi ->
+  Forall (fun p => genuine_pkt oti transfer p = true) pkts ->
+  let (o, c) := receive E fid files inst toi max pkts in
+  forall w, is_prefix (written (calls_of w (c_log c))) content = true
+            /\ P_C03_writer content true (calls_of w (c_log c)) = true.
+Proof. exact cenc_safety. Qed.
+Print Assumptions C03_cenc_complete_implies_exact.
+
+(* non-vacuity: the toy decoder satisfies the hypothesis; block 1 and half of block 0: nothing is written; block 0
+   complete and half of block 1: the decoded part of block 0 (the header is dropped), no complete *)
+Example C03_cenc_example_partial_reception :
+  inflate_oracle_blocks env_toy CGzip ex_oti exc_transfer exc_content
+  /\ summary 7 (receive env_toy 1 (exc_files CGzip (Some exc_content) (Some 5)) None 7 1000 (firstn 3 exc_pkts))
+     = (Receiving, [CallOpen true])
+  /\ summary 7 (receive env_toy 1 (exc_files CGzip (Some exc_content) (Some 5)) None 7 1000 (skipn 1 exc_pkts))
+     = (Receiving, [CallOpen true; CallWrite [1; 2] true]).
+Proof. split; [exact (inflate_oracle_ok_blocks _ _ _ _ _ (toy_oracle_ok CGzip 31 139 exc_content))|]. vm_compute. repeat split. Qed.
+
+(* the hypothesis is needed: genuine packets, an inflater answering other bytes, no MD5: wrong bytes, Completed *)
+Example C03_cenc_wrong_inflater_corrupts :
+  forallb (genuine_pkt ex_oti exc_transfer) exc_pkts = true
+  /\ summary 7 (receive env_wrong 1 (exc_files CGzip None (Some 5)) None 7 1000 exc_pkts)
+     = (Completed, [CallOpen true; CallWrite [9; 9] true; CallWrite [9; 9; 9] true; CallComplete]).
+Proof. vm_compute. repeat split. Qed.
+(* ===== end block: C02Cenc ===== *)
